@@ -103,7 +103,7 @@ def adversarial_cases(rng, n):
         names = 3
         x = rng.randrange(names)
         X = rng.randrange(names)
-        fam = rng.randrange(5)
+        fam = rng.randrange(9)
         if fam == 0:
             # imp_refl(A[X]) ; Gen x ; Subst X := plug mentioning x
             A = rng.choice([('SVar', X), ('Imp', ('SVar', X), ('Sym', 0)), ('App', ('SVar', X), ('SVar', X)),
@@ -131,10 +131,43 @@ def adversarial_cases(rng, n):
                                ('Ex', 0, ('EVar', 0)), ('App', ('EVar', 0), ('EVar', 1))])
             prog = G.build(body) + [G.QUANT, G.INST, 1, 0]
             out.append((f'E P {G.hexs(prog)}', 'adv:quantifier-inst'))
-        else:
+        elif fam == 4:
             # unconstrained metavar generalised: must be rejected (phi0 not known fresh)
             prog = G.prog_imp_refl(G.phi(0)) + [G.GEN, x] + G.build(('EVar', x)) + [G.POP]
             out.append((f'E P {G.hexs(prog)}', 'adv:gen-unconstrained'))
+        elif fam == 5:
+            # pending element substitution with a general plug mentioning x; Gen x; then resolve it
+            plug = rng.choice([('App', ('EVar', x), ('EVar', x)), ('App', ('EVar', x), ('Sym', 0)), ('Ex', (x + 1) % names, ('EVar', x)),
+                               ('EVar', (x + 1) % names), ('Imp', ('EVar', x), G.BOT)])
+            y = rng.choice([x, (x + 1) % names])
+            E = ('ESub', G.phi(0), y, plug)
+            inst_to = rng.choice([('EVar', y), ('App', ('EVar', y), ('EVar', y)), ('Sym', 1), ('Ex', x, ('EVar', y))])
+            prog = G.build(inst_to) + G.prog_imp_refl(E) + [G.GEN, x, G.INST, 1, 0]
+            out.append((f'E P {G.hexs(prog)}', 'adv:esubst-general-plug-gen-inst'))
+        elif fam == 6:
+            # constraint lists (s_fresh / positive / negative) with a violating or respecting plug
+            which = rng.randrange(3)
+            cons = [(), (), (), (), ()]
+            lst = tuple(sorted({X, rng.randrange(names)}))
+            mv = ('MVar', 0, (), lst if which == 0 else (), lst if which == 1 else (), lst if which == 2 else (), ())
+            plug = rng.choice([('SVar', X), ('Imp', ('SVar', X), ('Sym', 0)), ('Imp', ('Imp', ('SVar', X), ('Sym', 0)), ('Sym', 0)), ('Sym', 0),
+                               ('Mu', X, ('SVar', X)), ('SVar', (X + 1) % names)])
+            prog = G.build(plug) + G.prog_imp_refl(mv) + [G.INST, 1, 0]
+            out.append((f'E P {G.hexs(prog)}', 'adv:constraint-lists-inst'))
+        elif fam == 7:
+            # declared but unproved / wrongly proved claims
+            c = G.gen_pat(rng, 2, names, meta=False)
+            other = G.gen_pat(rng, 1, names, meta=False)
+            proof = rng.choice([[], G.prog_imp_refl(other) + [G.PUBLISH], G.prog_imp_refl(other)])
+            out.append((f'V - {G.hexs(G.build(c) + [G.PUBLISH])} {G.hexs(proof)}', 'adv:unproved-or-mismatching-claim'))
+        else:
+            # substitution into a constrained / pending-substitution schema, then instantiate
+            mv = ('MVar', 0, (), (X,) if rng.random() < 0.5 else (), (), (), ())
+            A = rng.choice([('SSub', G.phi(1), X, ('SVar', (X + 1) % names)), ('Imp', mv, ('SVar', X)), ('Mu', (X + 1) % names, ('App', ('SVar', (X + 1) % names), mv))])
+            plug = rng.choice([('SVar', X), ('SVar', (X + 1) % names), ('Sym', 0)])
+            inst_to = rng.choice([('SVar', X), ('SVar', (X + 1) % names), ('EVar', x)])
+            prog = G.build(inst_to) + G.build(plug) + G.prog_imp_refl(A) + [G.SUBST, X, G.INST, 1, rng.choice([0, 1])]
+            out.append((f'E P {G.hexs(prog)}', 'adv:subst-then-inst'))
     return out
 
 
@@ -244,12 +277,14 @@ def find_countermodel(p, rng, tries=24):
 
 
 def proved_terms_of(state_line):
-    """patterns tagged Proved in a `S[..] M[..] C[..]` dump"""
+    """patterns tagged Proved in the stack or memory of a `... S[..] M[..] C[..]` dump"""
+    import re
     out = []
-    for part in state_line.replace('] ', ']|').split('|'):
-        if part[:2] in ('S[', 'M['):
-            body = part[2:-1] if part.endswith(']') else part[2:]
-            for t in body.split(','):
-                if t.startswith('T'):
-                    out.append(G.dec(G.unhex(t[1:])))
+    m = re.search(r'S\[([^\]]*)\] M\[([^\]]*)\] C\[([^\]]*)\]', state_line)
+    if not m:
+        return out
+    for body in (m.group(1), m.group(2)):
+        for t in body.split(','):
+            if t.startswith('T'):
+                out.append(G.dec(G.unhex(t[1:])))
     return out
